@@ -44,6 +44,7 @@ package http2
 //@ pool hpackPool: *HPACK
 //@ pool bytePool: *[]byte
 //@ pool streamPool: *Stream
+//@ pool ctxPool: *fasthttp.RequestCtx
 
 // ---------------------------------------------------------------------------
 // frameHeader.go
@@ -979,6 +980,8 @@ package http2
 //@ # both windows go down by exactly what has been sent; nothing is sent on a closed window
 //@ loop 0: invariant ledger: strm.window == old(strm.window) - sent && sc.clientWindow == old(sc.clientWindow) - sent && sent >= 0
 //@ loop 0: invariant ptrs: scOK(sc) && strm != nil
+//@ # sending never drives a window below zero (a negative window comes from a SETTINGS change and just blocks)
+//@ loop 0: invariant floor: strm.window >= min(old(strm.window), 0) && sc.clientWindow >= min(old(sc.clientWindow), 0)
 //@ # every DATA frame fits the stream window, the connection window and the smallest legal SETTINGS_MAX_FRAME_SIZE
 //@ # (the only empty frame is the one that carries END_STREAM after the reader has ended)
 //@ assert@call:(*serverConn).write#1 fits: ((step >= 1 && step <= strm.window && step <= sc.clientWindow && step <= 16384) || (step == 0 && end)) && len(chunk) == step
@@ -988,6 +991,7 @@ package http2
 //@ ghost@call:(*serverConn).write#1 sent = sent + step
 //@ ghost@call:(*serverConn).write#1 ended = ended || end
 //@ ensures ledger: strm.window == old(strm.window) - sent && sc.clientWindow == old(sc.clientWindow) - sent && sent >= 0
+//@ ensures floor: strm.window >= min(old(strm.window), 0) && sc.clientWindow >= min(old(sc.clientWindow), 0)
 //@ # false means blocked: a window is closed and data is left (the loop resumes it when a window opens)
 //@ ensures blocked: !r0 ==> (strm.window <= 0 || sc.clientWindow <= 0) && len(strm.pendingData) > 0
 //@ ensures done: r0 ==> strm.bodyStream == nil
@@ -1222,3 +1226,74 @@ package http2
 //@ assert@send#1 cont: arg0.kind == 9 ==> ec0 != 0
 //@ # a connection-level WINDOW_UPDATE of 0 is a connection error, not forwarded (RFC 7540 6.9)
 //@ assert@send#3 nonzero: as(arg0.fr, *WindowUpdate).increment != 0
+
+// ---- the stream loop (handleStreams) and what it calls ----
+
+//@ macro strmOK(s) = s != nil && s.ctx != nil && s.window >= -2147483648 && s.window <= 2147483647 && s.recvBody >= 0 && s.recvBody <= 1099511627776
+//@ macro strmsOK(strms) = forall(i, 0, len(strms), strmOK(strms[i]))
+
+//@ # frames handed to the stream loop by the read loop (proved at the sends in readLoop: assert typed)
+//@ chan serverConn.reader: self.fr != nil && 0 <= self.kind && self.kind <= 9 && frameTypeOK(self.fr, self.kind) && self.length >= 0 && self.length <= 16777215
+//@ # streams coming back from their handlers
+//@ chan serverConn.handlerDone: self.ctx != nil && self.window >= -2147483648 && self.window <= 2147483647
+
+//@ func fasthttpResponseHeaders
+//@ props C01
+//@ requires args: dst != nil && hp != nil && res != nil && hpackOK(hp)
+//@ opt body=skip
+//@ opt noframe=true
+//@ modifies dst.rawHeaders, capacity(dst.rawHeaders), hp.pendingSizeUpdate, hp.dynamic, capacity(hp.dynamic), family(HeaderField), anybytes()
+//@ ensures tbl: hpackOK(hp)
+
+//@ func (*serverConn).finishRequest
+//@ props C01 C06
+//@ requires args: scOK(sc) && strm != nil && strm.ctx != nil && hpackOK(sc.enc)
+//@ requires windows: strm.window <= 2147483647 && sc.clientWindow <= 2147483647 && strm.window >= -2147483648 && sc.clientWindow >= -2147483648
+//@ # nothing of a previous response is left on the stream
+//@ requires fresh: strm.bodyStream == nil
+//@ opt noframe=true
+//@ modifies strm.pendingData, strm.window, sc.clientWindow, strm.bodyBuf, strm.bodyRead, strm.pendingEnd, strm.bodyStream, strm.bodySize, anybytes(),
+//@ |   sc.enc.pendingSizeUpdate, sc.enc.dynamic, capacity(sc.enc.dynamic), family(HeaderField), family(FrameHeader),
+//@ |   family(Data), family(Headers), family(Priority), family(RstStream), family(Settings), family(PushPromise), family(Ping), family(GoAway), family(WindowUpdate), family(Continuation)
+//@ # the response starts with exactly one HEADERS frame, queued before any DATA
+//@ ensures headers: called((*serverConn).write) == 1
+//@ ensures enc: hpackOK(sc.enc)
+//@ ensures windows: strm.window <= old(strm.window) && sc.clientWindow <= old(sc.clientWindow) && strm.window >= -2147483648 && sc.clientWindow >= -2147483648
+//@ ensures done: r0 ==> strm.bodyStream == nil
+
+//@ func (*serverConn).createStream
+//@ props C13 C17
+//@ requires args: scOK(sc) && strm != nil
+//@ opt noframe=true
+//@ modifies strm.origType, strm.startedAt, strm.ctx
+//@ ensures ctx: strm.ctx != nil && strm.origType == frameType
+
+//@ func (*serverConn).dispatchHandler
+//@ props C01 C13 C17
+//@ # a handler is started at most once per stream, and only for a stream that has a request context
+//@ requires args: scOK(sc) && strm != nil && strm.ctx != nil && !strm.handlerRunning
+//@ opt noframe=true
+//@ modifies strm.handlerRunning
+//@ ensures running: strm.handlerRunning
+
+//@ func (Streams).getPrevious
+//@ props C08
+//@ requires nonnil: forall(i, 0, len(strms), strms[i] != nil)
+//@ pure
+//@ loop 0: invariant idx: i >= -1 && i < len(strms) && cnt >= 0
+//@ ensures member: r0 == nil || exists(i, 0, len(strms), strms[i] == r0)
+
+//@ func (Streams).GetFirstOf
+//@ props C08
+//@ requires nonnil: forall(i, 0, len(strms), strms[i] != nil)
+//@ pure
+//@ ensures member: r0 == nil || exists(i, 0, len(strms), strms[i] == r0)
+
+//@ func (*Streams).Del
+//@ props C08 C13
+//@ requires recv: strms != nil && forall(i, 0, len(*strms), (*strms)[i] != nil)
+//@ modifies *strms, contents(*strms)
+//@ # deleting removes at most one entry and keeps every other stream, in order
+//@ ensures shrink: len(*strms) == len(old(*strms)) || len(*strms) == len(old(*strms)) - 1
+//@ ensures subset: forall(i, 0, len(*strms), exists(j, 0, len(old(*strms)), (*strms)[i] == old(*strms)[j]))
+//@ ensures nonnil: forall(i, 0, len(*strms), (*strms)[i] != nil)
